@@ -173,6 +173,8 @@ type BodyGen struct {
 	Dyn int // percent: a block position is filled by a "dynamic" block
 	// BadShare (percent) of attributes get an expression of an arbitrary type instead of the spec's type
 	BadShare int
+	// NoBlockAttrs leaves out BlockAttrsSpec items
+	NoBlockAttrs bool
 }
 
 var attrItemNames = []string{"a", "b", "name", "count", "cfg", "tags", "enabled"}
@@ -200,6 +202,9 @@ func (bg *BodyGen) Items(depth int, homog bool) []SpecItem {
 				kinds = kinds[:6]
 			}
 			it := SpecItem{Kind: kinds[r.Intn(len(kinds))], Name: name}
+			if it.Kind == "blockattrs" && bg.NoBlockAttrs {
+				it.Kind = "blocklist"
+			}
 			switch it.Kind {
 			case "blockattrs":
 				// (hcldec panics in cty.MapVal for a dynamically-typed BlockAttrsSpec whose attributes differ in type)
@@ -375,7 +380,7 @@ func NewBodyCase(r *lib.Rand, o Options, dyn, bad int) (*BodyCase, bool) {
 		g.Clash = o.Clash
 	}
 	g.Prefer = o.Prefer
-	bg := &BodyGen{G: g, Dyn: dyn, BadShare: bad}
+	bg := &BodyGen{G: g, Dyn: dyn, BadShare: bad, NoBlockAttrs: o.NoBlockAttrs}
 	items := bg.Items(2, false)
 	b := &BodyCase{Scope: s, Items: items, Tree: bg.Body(items, 2, 2)}
 	return b, b.RenderBody()
